@@ -105,11 +105,23 @@ func matrixCfgs() []namedCfg {
 // matrixC04 drives one long-lived session (and a cold one) across every expiry boundary of its IK and of the
 // parent SK, for several age offsets between SK and IK and every cache configuration.
 func matrixC04(t *testing.T, r *ev.Run) {
-	E, R, P := time.Hour, 5*time.Minute, time.Minute
+	matrixC04R(t, r, 5*time.Minute)
+	// zero revoke-check interval: every use re-checks, so the IK under an expired SK is dropped at once
+	matrixC04R(t, r, 0)
+}
+
+func matrixC04R(t *testing.T, r *ev.Run, R time.Duration) {
+	E, P := time.Hour, time.Minute
 	deltas := []time.Duration{0, R / 2, 2 * R, E / 2, E - R/2}
+	if R == 0 {
+		deltas = []time.Duration{0, 7 * time.Minute, E / 2, E - 3*time.Minute}
+	}
 	for _, nc := range matrixCfgs() {
 		for _, delta := range deltas {
 			for variant := 0; variant < 4; variant++ {
+				if R == 0 && variant >= 2 {
+					continue
+				}
 				coldToo := variant == 1
 				// variants 2 and 3: from the moment the system key has expired every encrypt of the long-lived session
 				// meets a transient fault at its first metastore read (2) or KMS call (3): the operation may fail, but
@@ -119,7 +131,7 @@ func matrixC04(t *testing.T, r *ev.Run) {
 				if variant >= 2 {
 					faultKind = variant - 1
 				}
-				name := fmt.Sprintf("c04/%s/delta=%s/cold=%v/fault=%d", nc.name, delta, coldToo, faultKind)
+				name := fmt.Sprintf("c04/R=%s/%s/delta=%s/cold=%v/fault=%d", R, nc.name, delta, coldToo, faultKind)
 				scripted(t, r, name, OC04|OC01, E, R, P, func(h *hist) {
 					time.Sleep(17 * time.Second) // not on a precision boundary
 					fa := h.factWith(nc.cfg)
@@ -137,7 +149,11 @@ func matrixC04(t *testing.T, r *ev.Run) {
 							pts = append(pts, b.Add(eps))
 						}
 					}
-					for d := R / 2; d < E; d += 7 * R / 3 { // keep the cache warm in between with irregular spacing
+					warmStep := 7 * R / 3
+					if warmStep == 0 {
+						warmStep = 11 * time.Minute
+					}
+					for d := R / 2; d < E; d += warmStep { // keep the cache warm in between with irregular spacing
 						pts = append(pts, time.Now().Add(d))
 					}
 					sort.Slice(pts, func(i, j int) bool { return pts[i].Before(pts[j]) })
